@@ -255,6 +255,73 @@ fn mk_entry(ts: u64, data: &[u8]) -> WalEntry {
     cands.iter().map(|&c| mk(c)).find(|e| e.validate()).unwrap_or(mk(cands[0]))
 }
 
+/// The life of ONE rotator: appends (small files, so it rotates), syncs and truncate_before(T) calls interleaved, as under the
+/// WAL actor, which truncates again and again while it keeps writing. After every truncation: the file being written is still
+/// there, every entry stamped later than T that was recoverable before the call still is, and recovery returns nothing that
+/// was not appended. Stamps are monotone, shuffled or drawn from interleaved clocks.
+fn rotator_life(rep: &mut Report, rng: &mut Rng) {
+    let store = InMemoryWalStore::new();
+    let max = [40usize, 90, 200, 4096][rng.gen_range(0..4)];
+    let Ok(mut rot) = WalRotator::new(store.clone(), max) else { return };
+    let mode = rng.gen_range(0..3);
+    let mut clock = 1u64;
+    let mut appended: Vec<(u64, Vec<u8>)> = vec![];
+    let mut script: Vec<Value> = vec![];
+    let steps = rng.gen_range(8..50);
+    rep.evaluations += 1;
+    rep.count("rotator-life:cases");
+    for step in 0..steps {
+        match rng.gen_range(0..10) {
+            0..=5 => {
+                let ts = match mode {
+                    0 => { clock += rng.gen_range(1..4); clock }
+                    1 => { clock += 1; if rng.gen_bool(0.3) { clock.saturating_sub(rng.gen_range(0..6)).max(1) } else { clock } }
+                    _ => { clock += 1; (clock / 3) * [1u64, 5, 11][(clock % 3) as usize] + 1 }
+                };
+                let data: Vec<u8> = (0..rng.gen_range(1..30)).map(|_| rng.gen()).chain([step as u8]).collect();
+                let e = mk_entry(ts, &data);
+                if guard(|| rot.append(&e).map_err(|x| x.to_string())).map(|r| r.is_ok()).unwrap_or(false) {
+                    appended.push((ts, data.clone()));
+                    script.push(json!({"append": ts}));
+                }
+            }
+            6 => {
+                let _ = guard(|| rot.sync().map_err(|x| x.to_string()));
+                script.push(json!("sync"));
+            }
+            _ => {
+                let stamps: Vec<u64> = appended.iter().map(|e| e.0).collect();
+                let t = if stamps.is_empty() { 0 } else { let base = stamps[rng.gen_range(0..stamps.len())]; [base.saturating_sub(1), base, base + 1][rng.gen_range(0..3)] };
+                let before: Vec<Ent> = match guard(|| rot.recover_all_entries().map_err(|x| x.to_string())) { Ok(Ok(v)) => v.into_iter().map(|e| (e.timestamp, e.data)).collect(), _ => continue };
+                let active = wal_name(rot.current_sequence());
+                let had_active = store.get_file_data(&active).is_some();
+                script.push(json!({"truncate_before": t}));
+                rep.count("rotator-life:truncations");
+                let wit = json!({"case": "rotator-life", "max_file_size": max, "stamp_mode": mode, "script": script});
+                match guard(|| rot.truncate_before(t).map_err(|x| x.to_string())) {
+                    Err(p) => return rep.violation(format!("C10|truncate_before|panic:{}|same-rotator-again", panic_class(&p)), p, wit),
+                    Ok(Err(_)) => continue,
+                    Ok(Ok(n)) => {
+                        if n > 0 {
+                            rep.count("rotator-life:truncations-that-deleted");
+                        }
+                    }
+                }
+                if had_active && store.get_file_data(&active).is_none() {
+                    return rep.violation("C10|truncate_before|active-file-removed|same-rotator-again".to_string(), format!("{} gone after truncate_before({})", active, t), wit);
+                }
+                let after: Vec<Ent> = match guard(|| rot.recover_all_entries().map_err(|x| x.to_string())) { Ok(Ok(v)) => v.into_iter().map(|e| (e.timestamp, e.data)).collect(), _ => vec![] };
+                if let Some(lost) = before.iter().find(|e| e.0 > t && !after.contains(e)) {
+                    return rep.violation("C10|truncate_before|newer-entry-lost|same-rotator-truncated-again-after-more-appends".to_string(), format!("entry stamped {} > T = {} was recoverable before truncate_before and is not afterwards", lost.0, t), wit);
+                }
+                if let Some(alien) = after.iter().find(|e| !appended.contains(e)) {
+                    return rep.violation("C10|recover_all_entries|entry-never-appended|same-rotator-again".to_string(), format!("entry stamped {} was never appended", alien.0), wit);
+                }
+            }
+        }
+    }
+}
+
 fn build(spec: &[Session]) -> Result<World, String> {
     let store = InMemoryWalStore::new();
     let mut truth: BTreeMap<u64, Vec<Ent>> = BTreeMap::new();
@@ -784,6 +851,9 @@ pub fn wal_leg(args: &Args) {
         let (small, deltas) = (rng.gen(), rng.gen());
         let (spec, pattern) = gen_spec(&mut rng, small, deltas);
         run_layout(&mut rep, &spec, pattern, small, deltas, &mut rng, false);
+        for _ in 0..40 {
+            rotator_life(&mut rep, &mut rng);
+        }
     }
     // giants: 1 MiB + 1 and 17 MiB in the quick tier, 70 MiB and 130 MiB in addition in the thorough tier
     let giants: &[usize] = if args.thorough() { &[(1 << 20) + 1, 17 << 20, 70 << 20, 130 << 20] } else { &[(1 << 20) + 1, 17 << 20] };
